@@ -294,6 +294,60 @@ def tiny_scripts(rng):
     return out
 
 
+def stream_scripts(rng):
+    """deterministic: the zlib streams of a connection persist across SetEncodings.  For every
+    stream-carrying encoding (Zlib; Tight's streams 0 = full colour, 1 = mono, 2 = indexed; TightPng's basic
+    rectangles on 8 bpp; ZRLE) one connection on which, between non-tiny rectangles, the client changes the
+    compression level (up, down, same again, none), sets and removes a JPEG quality level, switches to each
+    other encoding and back.  (ZlibHex, encoding 8, is not implemented by this server: it is not offered.)"""
+    out = []
+    W, H = 96, 72
+    contents = {"full": ("noise", 1), "mono": ("pal", 2), "indexed": ("pal", 7), "photo": ("photo", 1), "tiles": ("tiles", 4)}
+
+    def script(sb, fmtn, encname, kinds, k):
+        e = ENC[encname]
+        others = [ENC[o] for o in ("zlib", "tight", "zrle", "hextile", "raw") if o != encname]
+        lines = ["screen %d %d %d" % (W, H, sb), "client"]
+        if fmtn != "server":
+            lines.append("fmt " + " ".join(str(v) for v in FORMATS[fmtn]))
+        lv = [6, 9, 1, 1, 0, 3, 9, 2]
+        steps = []
+        steps.append("enc %d %d" % (e, -256 + lv[0]))
+        steps.append("enc %d %d" % (e, -256 + lv[1]))            # level up
+        steps.append("enc %d %d" % (e, -256 + lv[2]))            # level down
+        steps.append("enc %d %d" % (e, -256 + lv[3]))            # same level again
+        steps.append("enc %d" % e)                               # no level (library default)
+        steps.append("enc %d %d" % (e, -256 + lv[4]))            # level 0
+        steps.append("enc %d %d" % (e, -256 + lv[5]))
+        for o in others:                                         # away to another encoding and back
+            steps.append("enc %d %d" % (o, -256 + lv[(k + o) % 8]))
+            steps.append("enc %d %d" % (e, -256 + lv[(k + o + 3) % 8]))
+        if encname in ("tight",):
+            steps.append("enc %d %d %d" % (e, -256 + 2, -32 + 7))    # JPEG quality on (palette content stays zlib)
+            steps.append("enc %d %d" % (e, -256 + 2))                # and off again
+            steps.append("enc %d %d %d" % (e, -256 + 9, LASTRECT))
+        for j, st in enumerate(steps):
+            lines.append(st)
+            kd = kinds[j % len(kinds)]
+            pk = contents[kd]
+            lines.append("paint %s %d 0 0 %d %d %d %d" % (pk[0], rng.randrange(1 << 30), W, H, pk[1], (16 << 4) if pk[0] == "tiles" else 0))
+            x, y, w, h = [(0, 0, W, H), (16, 20, 64, 48), (W - 40, H - 30, 40, 30)][j % 3]
+            lines.append("req 0 %d %d %d %d" % (x, y, w, h))
+        out.append(("\n".join(lines) + "\n", {"sb": sb, "W": W, "H": H, "enc": encname, "fmt": fmtn, "big": False,
+                                               "lossy": False, "boundary": True, "streams": True}))
+
+    k = 0
+    for encname, kindsets in (("zlib", [["full", "tiles", "mono"]]),
+                              ("zrle", [["full", "tiles", "indexed"]]),
+                              ("tight", [["full"], ["mono"], ["indexed"], ["full", "mono", "indexed", "tiles"]]),
+                              ("tightpng", [["full", "mono", "indexed"]])):
+        for kinds in kindsets:
+            for sb, fmtn in (((4, "server"), (2, "rgb888le"), (1, "bgr233")) if encname != "tightpng" else ((1, "bgr233"), (4, "rgb332"))):
+                script(sb, fmtn, encname, kinds, k)
+                k += 1
+    return out
+
+
 # ------------------------------------------------------------------ running one script
 def run_proc(exe, script, timeout=600):
     e = dict(os.environ)
@@ -739,6 +793,8 @@ def run(ctx):
         for sc in boundary_scripts(ctx.rng):
             cases.append(sc)
         for sc in tiny_scripts(ctx.rng):
+            cases.append(sc)
+        for sc in stream_scripts(ctx.rng):
             cases.append(sc)
         nlossy = 20 if ctx.tier == "quick" else 300
         for k in range(nlossy):
